@@ -1315,7 +1315,7 @@ def oracle(case, obs, base):
         return v        # the layout on disk is not the one its kind describes (reported as a broken obligation)
     if "nspath" in obs and (sorted(obs["nspath"]) if obs["nspath"] is not None else None) != expected_nspath(pkg, base):
         return v        # likewise: the package's __path__ is not the one the layout is meant to produce
-    if obs["err"] == 9:
+    if obs["err"] == 9 and (fms or not any_fault):
         v.append(("unexpected-exception", "AutonomousModeSelector(...) raised an unrelated exception: %s" % obs["exc"]))
         return v
     if not fms:
